@@ -61,6 +61,12 @@ JOIN_OPTS = [
     ('join_noncond', 'JOIN t2 ON t1.a < t2.b', 't2'),
 ]
 
+# three-table chains: every combination of (join kind, condition present?) for the second and the third table
+_LINK = [('join_on', 'JOIN {t} ON {c}'), ('join_nocond', 'JOIN {t}'), ('left_on', 'LEFT JOIN {t} ON {c}'), ('cross', 'CROSS JOIN {t}'), ('right_on', 'RIGHT JOIN {t} ON {c}')]
+for _l1, _f1 in _LINK:
+    for _l2, _f2 in _LINK:
+        JOIN_OPTS.append((f'chain_{_l1}__{_l2}', _f1.format(t='t2', c='t1.id = t2.id') + ' ' + _f2.format(t='t3', c='t2.id = t3.id'), 't2'))
+
 WHERE_OPTS = [
     ('none', ''),
     ('eq', 't1.a = 1'),
